@@ -166,10 +166,29 @@ def cross_variant_check(ctx, cases):
                            'theorem': 'Hpv.Props.C02.invariance'})
 
 
+def crafted_factory_history(ctx, rng):
+    """pairs of lists (A, B) built one after the other by the long-lived factory: A's LAST edge and B's FIRST edge have the same subject,
+    which sits at different positions of the two node arrays (what a factory remembered from A is wrong for B)"""
+    for k in range(6):
+        x = 'HP:0000500'
+        a_extra = [f'HP:{i:07d}' for i in rng.sample(range(501, 600), rng.randrange(1, 4))]
+        b_extra = [f'HP:{i:07d}' for i in rng.sample(range(1, 499), rng.randrange(2, 6))]
+        A = [(e, 'HP:0000900') for e in a_extra] + [(x, 'HP:0000900')]
+        B = [(x, b_extra[0])] + [(e, 'HP:0000950') for e in b_extra] + [('HP:0000950', 'HP:0000960')]
+        for first, second in ((A, B), (B[::-1], A[::-1]), (A, B[::-1])):
+            cases = [{'factory': f, 'edges': lst, 'model_edges': lst, 'queries': shape_queries(lst), 'variant': 'base'}
+                     for lst in (first, second) for f in gl.FACTORIES]
+            cases.sort(key=lambda c: gl.FACTORIES.index(c['factory']))      # per factory: first, then second
+            for c in cases:
+                ctx.case(['factory-history', c['factory'], c['edges']], True, 'crafted factory histories')
+            cross_variant_check(ctx, cases)
+
+
 def run(ctx):
     rng = ctx.rng
     thorough = ctx.tier == 'thorough'
     label_sets = gl.LABEL_SETS[:4] if thorough else [gl.LABEL_SETS[0], gl.LABEL_SETS[2]]
+    crafted_factory_history(ctx, rng)
     # exhaustive: all permutations + single repeats of every <= 4-edge list on <= 4 positions (one label assignment per set)
     for k in (2, 3, 4):
         cases = []
@@ -199,6 +218,12 @@ def run(ctx):
     for i in range(0, len(cases), 600):
         evaluate(ctx, cases[i:i + 600], 'random-variants')
         cross_variant_check(ctx, cases[i:i + 600])
+    # more edges than 2^8 on fewer nodes than 2^8
+    ids40 = [f'HP:{i:07d}' for i in rng.sample(range(1, 900), 40)]
+    dense = [(ids40[j], ids40[i]) for j in range(1, 40) for i in range(j)]
+    rng.shuffle(dense)
+    cs = [{'factory': f, 'edges': dense, 'model_edges': dense, 'queries': shape_queries(dense)[:400], 'variant': 'base'} for f in gl.FACTORIES]
+    evaluate(ctx, cs, 'complete-DAG-40')
     # labels around owl:Thing with several parentless terms (sorting before / after the synthetic root)
     cases = []
     for labs in (['owl:Thin', 'owl:Thinh', 'uberon:1', 'HP:1'], ['zz:1', 'owl:Thing2', 'owl:T', 'a:1'], ['p:1', 'q:1', 'r:1', 'HP:1']):
